@@ -150,6 +150,29 @@ def o1_route_step(ctx, lx, ld, custom, multicast, mlvl=None, twice=False, acktyp
     ctx.reached()
 
 
+def o2_shared_radio(ctx, lvl, lvl2):
+    """two node objects (two roles of one device, on symbolic addresses of two levels) share one radio, each used inside its own
+    `with` block: whenever a role's block is entered the radio listens on exactly that role's six reference addresses"""
+    from circuitpython_nrf24l01.rf24_network import RF24Network
+    clock = fresh_env(ctx)
+    n1, n2 = sym_addr(ctx, "N", lvl), sym_addr(ctx, "M", lvl2)
+    ctx.assume(n1 != n2)
+    radio, a = new_net(clock, 0)
+    b = RF24Network(FakeSpiDev(radio), 0, Pin(radio), 0)
+    with a:
+        a.node_address = n1
+        listeners_ok(ctx, radio, n1, True, NS.DEFAULT_PREFIX, list(NS.DEFAULT_SUFFIX), "first role, first block")
+    with b:
+        b.node_address = n2
+        listeners_ok(ctx, radio, n2, True, NS.DEFAULT_PREFIX, list(NS.DEFAULT_SUFFIX), "second role, first block")
+    for k in range(2):
+        with a:
+            listeners_ok(ctx, radio, n1, True, NS.DEFAULT_PREFIX, list(NS.DEFAULT_SUFFIX), "first role, re-entered")
+        with b:
+            listeners_ok(ctx, radio, n2, True, NS.DEFAULT_PREFIX, list(NS.DEFAULT_SUFFIX), "second role, re-entered")
+    ctx.reached()
+
+
 def o2_listener(ctx, lvl, custom, multicast, mlvl=None):
     clock = fresh_env(ctx)
     n = sym_addr(ctx, "N", lvl)
@@ -218,6 +241,8 @@ def o4_multicast(ctx, lx, lvl, custom):
 
 def jobs(tier):
     out = []
+    for lvl, lvl2 in (((2, 1), (0, 3), (4, 4)) if tier == "quick" else [(a, b) for a in range(5) for b in range(5) if (a, b) != (0, 0)]):
+        out.append(Job("O2-pipe-addresses-of-two-roles-sharing-one-radio", o2_shared_radio, dict(lvl=lvl, lvl2=lvl2), cost=6))
     for lx in range(5):
         for ld in range(5):
             if lx == 0 and ld == 0:
